@@ -376,7 +376,7 @@ fn build(ch: &mut Chooser, cfg: &GCfg) -> Option<Program> {
 		}
 	}
 	let defs: Vec<Def> = b.defs.into_iter().collect::<Option<Vec<_>>>()?;
-	Some(Program { defs, lifetime: false })
+	Some(Program { defs, lifetime: false, ns_attr: Vec::new() })
 }
 
 pub struct Enumerated {
@@ -445,7 +445,7 @@ fn nm(i: usize) -> Ty {
 	Ty::Named(i)
 }
 fn prog(defs: Vec<Def>) -> Program {
-	Program { defs, lifetime: false }
+	Program { defs, lifetime: false, ns_attr: Vec::new() }
 }
 
 pub fn sweeps(thorough: bool) -> Vec<(Program, String)> {
@@ -490,8 +490,8 @@ pub fn sweeps(thorough: bool) -> Vec<(Program, String)> {
 		add(prog(vec![Def::Union { variants: vec![pl(ptr(p, nm(1))), pl(ptr(p, i32_()))], unit_at: Some(0) }, s2()]), "pointer payloads in union variants");
 		add(prog(vec![st(vec![pl(ptr(p, ptr(Ptr::Box, nm(1)))), pl(nm(1))]), s2()]), "pointer to pointer, shared record");
 	}
-	add(Program { defs: vec![st(vec![pl(Ty::BStr), FieldTy::BBytes, pl(opt(Ty::BStr)), pl(vec_(Ty::BStr))])], lifetime: true }, "borrowed &str / &[u8] fields");
-	add(Program { defs: vec![st(vec![pl(bmap(Ty::BStr)), pl(nm(1))]), s2()], lifetime: true }, "borrowed &str in map next to a record");
+	add(Program { defs: vec![st(vec![pl(Ty::BStr), FieldTy::BBytes, pl(opt(Ty::BStr)), pl(vec_(Ty::BStr))])], lifetime: true, ns_attr: Vec::new() }, "borrowed &str / &[u8] fields");
+	add(Program { defs: vec![st(vec![pl(bmap(Ty::BStr)), pl(nm(1))]), s2()], lifetime: true, ns_attr: Vec::new() }, "borrowed &str in map next to a record");
 
 	// S3: maps
 	for mk in [hmap as fn(Ty) -> Ty, bmap as fn(Ty) -> Ty] {
@@ -639,6 +639,47 @@ pub fn sweeps(thorough: bool) -> Vec<(Program, String)> {
 		for nf in nested {
 			add(prog(vec![st(vec![lf_(), nf])]), &format!("logical {n} field, then the plain base type one level down"));
 		}
+	}
+
+	// S7d: the namespace attribute {absent, "ns1", "a.b", ""} crossed with every kind of type that
+	// OWNS named sub-nodes (variant-owned fixed, field-owned logical fixed, newtype-owned fixed)
+	let with_ns = |mut p: Program, at: usize, ns: Option<&str>| {
+		if let Some(ns) = ns {
+			p.ns_attr.push((at, ns.to_owned()));
+		}
+		p
+	};
+	let dur = || FieldTy::Logical(Lg::Duration);
+	let decf = || FieldTy::Logical(Lg::DecFixed { size: 4, scale: 1, precision: 5 });
+	let cust = || FieldTy::Logical(Lg::CustomFixed(4));
+	for ns in [None, Some("ns1"), Some("a.b"), Some("")] {
+		let tag = match ns {
+			None => "no namespace attribute".to_owned(),
+			Some(n) => format!("namespace = \"{n}\""),
+		};
+		let owners: Vec<(Def, &str)> = vec![
+			(Def::Union { variants: vec![FieldTy::Fixed(4), FieldTy::Fixed(16), pl(str_())], unit_at: Some(3) }, "union enum with [u8; 4] and [u8; 16] variants"),
+			(Def::Union { variants: vec![FieldTy::Fixed(4), FieldTy::Fixed(4)], unit_at: None }, "union enum with two [u8; 4] variants"),
+			(Def::Union { variants: vec![FieldTy::Fixed(4), decf(), cust(), dur(), pl(i32_())], unit_at: Some(0) }, "union enum with plain, decimal, custom and duration fixed variants"),
+			(st(vec![decf(), pl(i32_())]), "record with a decimal-on-fixed field"),
+			(st(vec![dur(), cust(), FieldTy::Fixed(4)]), "record with duration, custom and plain fixed fields"),
+			(Def::Newtype { field: FieldTy::Fixed(4) }, "newtype struct over [u8; 4]"),
+			(Def::Newtype { field: decf() }, "newtype struct with decimal on fixed"),
+			(Def::UnitEnum { symbols: 2 }, "unit-only enum"),
+		];
+		for (d, what) in owners {
+			add(with_ns(prog(vec![d.clone()]), 0, ns), &format!("{what} as root, {tag}"));
+			add(with_ns(prog(vec![st(vec![pl(nm(1)), pl(vec_(nm(1)))]), d.clone()]), 1, ns), &format!("{what} nested and shared, {tag}"));
+			if !matches!(d, Def::Union { .. }) {
+				add(with_ns(prog(vec![Def::Union { variants: vec![pl(nm(1)), pl(str_())], unit_at: Some(0) }, d]), 1, ns), &format!("{what} as union variant, {tag}"));
+			}
+		}
+		for shape in [3usize, 4, 5] {
+			let g = |t: Ty| Ty::Gen(1, vec![t]);
+			add(with_ns(prog(vec![st(vec![pl(g(i32_()))]), Def::Generic { shape }]), 1, ns), &format!("generic shape {shape} (owned fixed), one instantiation, {tag}"));
+			add(with_ns(prog(vec![st(vec![pl(g(i32_())), pl(g(str_()))]), Def::Generic { shape }]), 1, ns), &format!("generic shape {shape} (owned fixed) at i32 and String, {tag}"));
+		}
+		add(with_ns(prog(vec![st(vec![pl(Ty::Gen(1, vec![i32_()])), pl(Ty::Gen(1, vec![str_()]))]), Def::Generic { shape: 0 }]), 1, ns), &format!("generic shape 0 at i32 and String, {tag}"));
 	}
 
 	// S8: recursion
